@@ -12,9 +12,15 @@ _CANDIDATES = {
 }
 
 
+def _version_key(path):
+    import re
+
+    return [int(x) for x in re.findall(r"\d+", path)]
+
+
 def find(name):
     for pat in _CANDIDATES.get(name, []):
-        for p in sorted(glob.glob(pat)):
+        for p in sorted(glob.glob(pat), key=_version_key, reverse=True):
             if os.access(p, os.X_OK):
                 return p
     return shutil.which(name)
